@@ -98,6 +98,15 @@ def laws(rng, quick):
     L.append(("x[n]<->Array(n,x)", ({"k": "Opaque", "desc": "Byte[3]"}, lambda: cs.Byte[3]), A.Array(3, by), [2, 3, 4], [[1, 2, 3], [1, 2], [1, 2, 3, 4], None, [256, 0, 0]]))
     L.append(("x[this.k]<->Array(this.k,x)", ({"k": "Opaque", "desc": "Int16ub[this._params.k]"}, lambda: cs.Int16ub[cs.this._params.k]), A.Array(A.T("_params", "k"), sh), [2, 3, 4, 5], [[1, 2], [1], [], [1, 2, 3]]))
     L.append(("a+b<->Struct", ({"k": "Opaque", "desc": "'a'/Byte + 'b'/Int16ub"}, lambda: ("a" / cs.Byte) + ("b" / cs.Int16ub)), A.Struct(A.Renamed("a", by), A.Renamed("b", sh)), [2, 3, 4], [{"a": 1, "b": 2}, {"a": 1}, {}, None, {"a": 256, "b": 1}]))
+    # the operators build new constructs: an operand used twice is not changed by the first use
+    hdr = cs.Struct("a" / cs.Byte)
+    first = hdr + ("b" / cs.Byte)
+    L.append(("(h+b), then h+c<->Struct(a,c)", ({"k": "Opaque", "desc": "h + 'c'/Int16ub after h + 'b'/Byte"}, lambda: hdr + ("c" / cs.Int16ub)), A.Struct(A.Renamed("a", by), A.Renamed("c", sh)), [2, 3, 4],
+              [{"a": 1, "c": 2}, {"a": 1, "b": 3, "c": 2}, {"a": 1}]))
+    L.append(("h after h+b<->Struct(a)", ({"k": "Opaque", "desc": "h after h + 'b'/Byte"}, lambda: hdr), A.Struct(A.Renamed("a", by)), [0, 1, 2], [{"a": 1}, {"a": 1, "b": 2}, {}]))
+    sq = cs.Sequence(cs.Byte)
+    first2 = sq >> cs.Byte
+    L.append(("(s>>b), then s>>c<->Sequence", ({"k": "Opaque", "desc": "s >> Int16ub after s >> Byte"}, lambda: sq >> cs.Int16ub), A.Sequence(by, sh), [2, 3, 4], [[1, 2], [1, 2, 3], [1]]))
     L.append(("a>>b<->Sequence", ({"k": "Opaque", "desc": "Byte >> Int16ub"}, lambda: cs.Byte >> cs.Int16ub), A.Sequence(by, sh), [2, 3, 4], [[1, 2], [1], [], None, [256, 1]]))
     L.append(("name/x<->Renamed", ({"k": "Opaque", "desc": "Struct('n'/Byte)"}, lambda: cs.Struct("n" / cs.Byte)), ({"k": "Opaque", "desc": "Struct(Renamed(Byte,'n'))"}, lambda: cs.Struct(cs.Renamed(cs.Byte, newname="n"))), [0, 1, 2], [{"n": 1}, {}, {"n": 256}]))
     return L
